@@ -92,10 +92,23 @@ def gen_op(ck: Check, pool: dict[str, Any]) -> dict[str, Any]:
     if r < 0.45:
         ck.histogram["op/mkStd"] += 1
         return {"op": "mkStd"}
-    if r < 0.60:
+    if r < 0.52:
         ck.histogram["op/mkExt"] += 1
         text, _ = fragment(rng)
         return {"op": "mkExt", "text": pool["simple"]}
+    if 0.52 <= r < 0.60:
+        ck.histogram["op/handread"] += 1
+        k = rng.randint(1, 3)
+        conv = rng.choice(["yesno", "flag", "boolean", None])
+        flag: dict[str, Any] = {"type": rng.choice(["string", "boolean"]), "cobol": "05 FLAG PIC X"}
+        if conv and rng.random() < 0.7:
+            flag["conversion"] = conv
+        doc = {"type": "object", "properties": {
+            "A": {"type": "string", "cobol": "05 A PIC X(2)"},
+            "ITEMS": {"type": "array", "minItems": k, "items": {"type": "string", "cobol": "10 I PIC X(1)"}},
+            "FLAG": flag}}
+        return {"op": "handread", "doc": doc, "reader": rng.choice(["text", "text", "ebcdic"]), "text": "AB" + "xyz"[:k] + "Y",
+                "fields": ["A", "FLAG"]}
     if 0.60 <= r < 0.65:
         ck.histogram["op/hdrdet"] += 1
         nd = rng.randint(1, 4)
